@@ -108,7 +108,7 @@ func (i Instruction) InputRegisters() []reg.Register {
 		rs = append(rs, operand.Registers(op)...)
 	}
 	if i.CancellingInputs && rs[0] == rs[1] {
-		rs = []reg.Register{}
+		rs = rs[2:]
 	}
 	for _, op := range i.Outputs {
 		if operand.IsMem(op) {
